@@ -671,6 +671,37 @@ fn parse_value_like(
     parse_token_left_to_right(our_id, definition, our_left, None, nodes, priority_map, check_for_list, under_group)
 }
 
+/// A side-effect block that has ended and stands before its operand - it has no operand of its own on its left and
+/// is either free-standing or the pending right operand of an operator - is taken over by the prefix operator or
+/// bracket that follows it, the way a value takes it: the block becomes that node's left child and the node takes the
+/// block's place under the block's parent. Returns the parent for the new node.
+fn take_leading_side_effect(ended_block: Option<usize>, list_item: bool, id: usize, nodes: &mut Vec<ParseNode>) -> Option<Option<usize>> {
+    if list_item {
+        return None;
+    }
+
+    let block = ended_block?;
+    let parent = match nodes.get(block) {
+        Some(node) if node.definition == Definition::SideEffect && node.left.is_none() => node.parent,
+        _ => return None,
+    };
+
+    if let Some(p) = parent {
+        match nodes.get_mut(p) {
+            // a block written after a value belongs to that value
+            Some(parent_node) if parent_node.right == Some(block) && !parent_node.definition.is_value_like() => parent_node.right = Some(id),
+            _ => return None,
+        }
+    }
+
+    match nodes.get_mut(block) {
+        Some(node) => node.parent = Some(id),
+        None => return None,
+    }
+
+    Some(parent)
+}
+
 fn setup_space_list_check(
     last_left: Option<usize>,
     current_group: Option<usize>,
@@ -852,6 +883,9 @@ pub fn parse(lex_tokens: &Vec<LexerToken>) -> Result<ParseResult, CompilerError>
         // if last left is side effect, we're not inside the side effect and side effect has a parent
         // change last left to the side effect's parent
         // current group is gotten above as under_group
+        // the side-effect block that ended just before this token, if any
+        let mut ended_block = None;
+
         match last_left {
             None => (),
             Some(i) => match nodes.get(i) {
@@ -859,6 +893,10 @@ pub fn parse(lex_tokens: &Vec<LexerToken>) -> Result<ParseResult, CompilerError>
                 Some(node) => {
                     let node: &ParseNode = node;
                     trace!("Checking if last left ({:?}) needs to be changed due to end of side effect.", last_left);
+                    if node.get_definition() == Definition::SideEffect && last_left != under_group {
+                        ended_block = last_left;
+                    }
+
                     if node.get_definition() == Definition::SideEffect && last_left != under_group && node.parent.is_some() {
                         trace!("Changing last left to side effect's parent {:?}", node.parent);
                         last_left = node.parent;
@@ -959,6 +997,7 @@ pub fn parse(lex_tokens: &Vec<LexerToken>) -> Result<ParseResult, CompilerError>
                 let mut parent = next_parent;
                 let mut our_id = current_id;
                 let mut right = assumed_right;
+                let list_item = check_for_list;
 
                 if check_for_list {
                     trace!("List flag is set, creating list node before current node.");
@@ -994,7 +1033,10 @@ pub fn parse(lex_tokens: &Vec<LexerToken>) -> Result<ParseResult, CompilerError>
 
                 next_parent = Some(our_id);
 
-                (definition, parent, None, right)
+                match take_leading_side_effect(ended_block, list_item, our_id, &mut nodes) {
+                    Some(block_parent) => (definition, block_parent, ended_block, right),
+                    None => (definition, parent, None, right),
+                }
             }
             SecondaryDefinition::UnarySuffix => {
                 next_parent = Some(current_id);
@@ -1012,6 +1054,7 @@ pub fn parse(lex_tokens: &Vec<LexerToken>) -> Result<ParseResult, CompilerError>
             SecondaryDefinition::StartGrouping => {
                 let mut parent = next_parent;
                 let mut right = assumed_right;
+                let list_item = check_for_list;
 
                 let mut our_id = current_id;
 
@@ -1059,7 +1102,10 @@ pub fn parse(lex_tokens: &Vec<LexerToken>) -> Result<ParseResult, CompilerError>
                 group_stack.push((our_id, check_for_list));
                 next_parent = Some(our_id);
 
-                (definition, parent, None, right)
+                match take_leading_side_effect(ended_block, list_item, our_id, &mut nodes) {
+                    Some(block_parent) => (definition, block_parent, ended_block, right),
+                    None => (definition, parent, None, right),
+                }
             }
             SecondaryDefinition::StartSideEffect => {
                 next_parent = Some(current_id);
@@ -1138,7 +1184,7 @@ pub fn parse(lex_tokens: &Vec<LexerToken>) -> Result<ParseResult, CompilerError>
                     Some(left) => match nodes.get_mut(left) {
                         None => implementation_error_with_token(format!("Index assigned to node has no value in node list. {:?}", left), token)?,
                         Some(left_node) => {
-                            // only a right operand that never materialised is unset, a bracket whose content is a
+                            // only a right operand that never materialised is unset, a group whose content is a
                             // side-effect block (`([])`, `(1, [2])`) keeps it
                             if (left_node.definition.is_optional() || left == ended_group) && left_node.right == Some(current_id) {
                                 left_node.right = None;
